@@ -20,7 +20,10 @@ import lib
 import universe as U
 from lib import gz, gtext, glist, gbool, gopt, gpair
 
-THEOREMS = ['C16_shape_src']
+THEOREMS = ['C16_shape_src', 'C16_flat_fields', 'C16_flat_override', 'C16_registry_subclasses',
+            'C16_xml_poly_rt', 'C16_xml_marker_resolves', 'C16_xml_mono', 'C16_xml_marker_sound',
+            'C16_hier_poly_rt', 'C16_hier_mono', 'C16_hier_marker_sound',
+            'C16_xml_poly_rt_spyne', 'C16_hier_poly_rt_spyne']
 
 XSI = 'http://www.w3.org/2001/XMLSchema-instance'
 XSD = 'http://www.w3.org/2001/XMLSchema'
